@@ -127,7 +127,7 @@ package server
 //@ spec func isChanDatagram(b []byte) bool = len(b) >= 4 && 0x4000 <= be16(b, 0) && be16(b, 0) <= 0x7FFF && be16(b, 2) <= len(b) - 4
 
 //@ func HandleRequest
-//@   requires reqWF(r) && ownWF(r) && r.SrcAddr != nil
+//@   requires reqWF(r) && ownWF(r) && ownCloseReady(r) && r.SrcAddr != nil && r.NonceHash != nil && mgrReady(r.AllocationManager)
 //@   at-call handleDataPacket assert [C05,C09:demux-channel] isChanDatagram(r.Buff) && sameSlice(arg0.Buff, r.Buff) && arg0.Conn == r.Conn && arg0.SrcAddr == r.SrcAddr && arg0.AllocationManager == r.AllocationManager
 //@   at-call handleTURNPacket assert [C05,C09:demux-stun] !isChanDatagram(r.Buff) && sameSlice(arg0.Buff, r.Buff) && arg0.Conn == r.Conn && arg0.SrcAddr == r.SrcAddr && arg0.AllocationManager == r.AllocationManager
 
@@ -222,3 +222,20 @@ package server
 //@   at-call buildAndSend assert [C19:retransmit-same] int(typeOf(arg2).Class) == 2 && old(ownAlloc(req)) != nil ==> ownAlloc(req) == old(ownAlloc(req)) && allocCreatedEvents == old(allocCreatedEvents)
 //@   ensures [C03:answered-only-requester] forall c :: c != req.Conn ==> pktWrites[c] == old(pktWrites[c])
 //@   ensures [C19:existing-untouched] old(ownAlloc(req)) != nil ==> ownAlloc(req) == old(ownAlloc(req)) && allocCreatedEvents == old(allocCreatedEvents)
+
+//@      // ---- Binding (C19)
+//@ func handleBindingRequest
+//@   requires reqWF(req) && stunMsg != nil
+//@   at-call buildAndSend assert [C19:correlated] respondsTo(req, stunMsg, arg0, arg1, arg2)
+//@   at-call buildAndSend assert [C19:mapped-address] len(arg2) == 4 && isMappedAttr(arg2[2], req.SrcAddr) && typeOf(arg2) == stun.BindingSuccess
+//@   ensures [C19:answered-only-requester] forall c :: c != req.Conn ==> pktWrites[c] == old(pktWrites[c])
+//@   ensures [C19:unknown-address] !(isUDP(req.SrcAddr) || isTCP(req.SrcAddr)) ==> pktWrites == old(pktWrites) && res != nil
+
+//@      // ---- STUN dispatch (C09, C19): unknown comprehension-required attributes are answered 420 with the same method and id
+//@ func handleTURNPacket
+//@   requires reqWF(req) && ownWF(req) && ownCloseReady(req) && req.NonceHash != nil && req.SrcAddr != nil && mgrReady(req.AllocationManager)
+//@   at-call buildAndSend assert [C19:a] isResponseList(arg2)
+//@   at-call buildAndSend assert [C19:b] arg0 == req.Conn && arg1 == req.SrcAddr
+//@   at-call buildAndSend assert [C19:c] int(typeOf(arg2).Class) == 3 && len(arg2) == 4
+//@   at-call buildAndSend assert [C19:d] unbox(arg2[2], stun.ErrorCode) == 420
+//@   loop 0 invariant -1 <= rangeindex && rangeindex < len(ranged())
